@@ -342,6 +342,9 @@ func tdQuoteBodyToProto(b []uint8) (*pb.TDQuoteBody, error) {
 }
 
 func signedDataToProto(b []uint8) (*pb.Ecdsa256BitQuoteV4AuthData, error) {
+	if len(b) < signedDataCertificationDataStart {
+		return nil, fmt.Errorf("signed data size is 0x%x. Expected minimum size of 0x%x", len(b), signedDataCertificationDataStart)
+	}
 	data := clone(b) // Created an independent copy to make the interface less error-prone
 	signedData := &pb.Ecdsa256BitQuoteV4AuthData{}
 	signedData.Signature = data[signedDataSignatureStart:signedDataSignatureEnd]
@@ -361,6 +364,9 @@ func signedDataToProto(b []uint8) (*pb.Ecdsa256BitQuoteV4AuthData, error) {
 }
 
 func certificationDataToProto(b []uint8) (*pb.CertificationData, error) {
+	if len(b) < certificateDataStart {
+		return nil, fmt.Errorf("certification data size is 0x%x. Expected minimum size of 0x%x", len(b), certificateDataStart)
+	}
 	data := clone(b) // Created an independent copy to make the interface less error-prone
 	certification := &pb.CertificationData{}
 
@@ -385,6 +391,9 @@ func certificationDataToProto(b []uint8) (*pb.CertificationData, error) {
 }
 
 func qeReportCertificationDataToProto(b []uint8) (*pb.QEReportCertificationData, error) {
+	if len(b) < qeReportCertificationDataAuthDataStart {
+		return nil, fmt.Errorf("QE report certification data size is 0x%x. Expected minimum size of 0x%x", len(b), qeReportCertificationDataAuthDataStart)
+	}
 	data := clone(b) // Created an independent copy to make the interface less error-prone
 	qeReportCertificationData := &pb.QEReportCertificationData{}
 
@@ -442,11 +451,17 @@ func enclaveReportToProto(b []uint8) (*pb.EnclaveReport, error) {
 }
 
 func qeAuthDataToProto(b []uint8) (*pb.QeAuthData, uint32, error) {
+	if len(b) < authDataStart {
+		return nil, 0, fmt.Errorf("QE AuthData size is 0x%x. Expected minimum size of 0x%x", len(b), authDataStart)
+	}
 	data := clone(b) // Created an independent copy to make the interface less error-prone
 	authData := &pb.QeAuthData{}
 
 	authData.ParsedDataSize = uint32(binary.LittleEndian.Uint16(data[authDataParsedDataSizeStart:authDataParsedDataSizeEnd]))
 	authDataEnd := authDataParsedDataSizeEnd + authData.GetParsedDataSize()
+	if uint32(len(data)) < authDataEnd {
+		return nil, 0, fmt.Errorf("QE AuthData size is 0x%x. Expected minimum size of 0x%x", len(data), authDataEnd)
+	}
 	authData.Data = data[authDataStart:authDataEnd]
 	if err := checkQeAuthData(authData); err != nil {
 		return nil, 0, fmt.Errorf("parsing QE AuthData failed: %v", err)
@@ -455,6 +470,9 @@ func qeAuthDataToProto(b []uint8) (*pb.QeAuthData, uint32, error) {
 }
 
 func pckCertificateChainToProto(b []uint8) (*pb.PCKCertificateChainData, error) {
+	if len(b) < pckCertChainDataStart {
+		return nil, fmt.Errorf("PCK certificate chain data size is 0x%x. Expected minimum size of 0x%x", len(b), pckCertChainDataStart)
+	}
 	data := clone(b) // Created an independent copy to make the interface less error-prone
 	pckCertificateChain := &pb.PCKCertificateChainData{}
 
